@@ -5,6 +5,7 @@ package tb
 import (
 	"fmt"
 	"os"
+	"runtime"
 	"sort"
 	"strings"
 	"testing"
@@ -443,7 +444,8 @@ func c02Body(t *testing.T, depth, devBound int) mc.Body {
 					out = mc.Outcome{Violation: "operation " + op.name + " refused: " + err.Error(), Key: "legal-write-refused"}
 					return
 				}
-				if op.tomb && (st.disabled || st.linkDown || st.upAway) && outageTomb == "" {
+				if op.tomb && (st.disabled || st.linkDown || st.upAway) {
+					// the newest tombstone written during an outage is the one that has to win
 					outageTomb = op.name
 				}
 				if !op.tomb && (st.disabled || st.linkDown || st.upAway) && st.aDeleted["any"] && (strings.Contains(op.name, " on A ") || strings.Contains(op.name, "A>B")) && outageDeadWrite == "" {
@@ -492,7 +494,25 @@ func c02Body(t *testing.T, depth, devBound int) mc.Body {
 				out = mc.Outcome{Violation: g.s.stuck, Key: "no-progress"}
 				return
 			}
-			if k, m := compare("5 sync periods after the history"); k != "" {
+			k, m := compare("5 sync periods after the history")
+			if k != "" {
+				// a request that was in flight when the link went down keeps the sync client waiting for its
+				// timeout (20 s): give it that time and five more periods before believing a divergence
+				g.s.run(21 * time.Second)
+				g.s.run(5500 * time.Millisecond)
+				g.s.quiesce()
+				k, m = compare("5 sync periods and a request timeout (26 s) after the history")
+			}
+			if k != "" {
+				if os.Getenv("VERIF_C02_DEBUG") != "" {
+					buf := make([]byte, 1<<20)
+					buf = buf[:runtime.Stack(buf, true)]
+					for _, g := range strings.Split(string(buf), "\n\n") {
+						if strings.Contains(g, "client.(*SyncClient)") || strings.Contains(g, "sync.go") {
+							fmt.Println("DEBUG-STACK\n" + g + "\n")
+						}
+					}
+				}
 				key := "diverged/" + k
 				if outageTomb != "" {
 					key = "tombstone-written-during-outage/" + strings.ReplaceAll(outageTomb, " ", "-")
